@@ -157,12 +157,12 @@ static bool gen_c17_inject(Rng &r, Plan &p) {
   static const std::vector<std::string> boxes = {"joe", "Joe.Shmoe", "a b", "a\"b", "x,y", "semi;colon", "back\\slash", "(paren)", "<angle>", "at@sign", "u-v_w+z", "we:ird", ".dot", "x..y", "\xe9t\xe9", "a\tb"};
   static const std::vector<std::string> hosts = {"x.example", "Mixed.Example", "shost", "lab.cs+", "[1.2.3.4]", "a.b.c.d.example"};
   auto cmt = [&]() -> std::string { return r.chance(0.3) ? " (c" + std::string(r.chance(0.3) ? " (nested \\) )" : "") + ") " : (r.chance(0.3) ? "\n\t" : " "); };
-  std::vector<std::string> expect; std::string hdr;
+  std::vector<std::string> expect; std::string hdr; int last_form = -1;
   auto one = [&](std::vector<std::string> &into) -> std::string {
     std::string box = r.pick(boxes), host = r.pick(hosts); bool has_host = !r.chance(0.1);
     std::string addr = hdr_quote(box) + (has_host ? "@" + host : std::string());
     into.push_back(rewrite(box, host, has_host));
-    int f = (int)r.below(7);
+    int f = (int)r.below(7); last_form = f;
     switch (f) {
       case 0: return addr;
       case 1: return r.pick(std::vector<std::string>{"Some Name", "A. Person", "\"Quoted, Name\"", "Na=me"}) + cmt() + "<" + addr + ">";
@@ -179,11 +179,25 @@ static bool gen_c17_inject(Rng &r, Plan &p) {
     if (name[0] == 'T' || name[0] == 't' || name[0] == 'C') have_to = true;
     if (name[0] == 'B' || name[0] == 'b') has_bcc = true;
     std::string list; int n = (int)r.range(1, 4);
+    // qmail-header(5), OTHER FEATURES: "Addresses are separated by commas, not spaces. When qmail-inject sees an illegal space, it
+    // inserts a comma: djb fred -> djb, fred". Two neighbouring mailboxes that are both written without angle brackets (comments
+    // and folding count as space) are sometimes joined by white space only; the envelope must still hold both.
+    auto plain = [](int f) { return f == 0 || f == 2 || f == 3; };
+    std::vector<std::string> items; std::vector<int> forms;
     for (int q = 0; q < n; q++) {
       std::string item;
-      if (r.chance(0.15)) { int gm = (int)r.below(3); item = r.pick(std::vector<std::string>{"random group", "list", "\"g;x\""}) + ":"; for (int m = 0; m < gm; m++) item += (m ? "," : "") + cmt() + one(expect); item += ";"; }
-      else item = one(expect);
-      list += item; if (q + 1 < n) list += r.chance(0.9) ? "," + cmt() : ",\n\t";
+      if (r.chance(0.15)) {
+        int gm = (int)r.below(3); item = r.pick(std::vector<std::string>{"random group", "list", "\"g;x\""}) + ":";
+        std::vector<std::string> mem; std::vector<int> mf; for (int m = 0; m < gm; m++) { std::string lead = cmt(); mem.push_back(lead + one(expect)); mf.push_back(last_form); }
+        for (int m = 0; m < gm; m++) { if (m) item += (plain(mf[(size_t)m - 1]) && plain(mf[(size_t)m]) && r.chance(0.25)) ? "" : ","; item += mem[(size_t)m]; }   // (every member starts with white space or a comment)
+        item += ";"; forms.push_back(-1);
+      }
+      else { item = one(expect); forms.push_back(last_form); }
+      items.push_back(item);
+    }
+    for (int q = 0; q < n; q++) {
+      list += items[(size_t)q];
+      if (q + 1 < n) { if (plain(forms[(size_t)q]) && plain(forms[(size_t)q + 1]) && r.chance(0.3)) list += r.pick(std::vector<std::string>{" ", "  ", "\n\t", " (c) ", "\n ", "\t"}); else list += r.chance(0.9) ? "," + cmt() : ",\n\t"; }
     }
     if (r.chance(0.1)) list += ",";
     // (white space between a field name and its colon is tolerated by the header recogniser: the field still counts)
